@@ -233,6 +233,52 @@ def _in_real_arm(fb, up, block):
     return False
 
 
+def _cases(fb, f, opn, lo, hi):
+    """Abstract argument tuples for f: kinds x denominator signs (x divisor sign for div), values in [lo, hi]."""
+    kinds = ["Integer", "Rational"]
+    signs = {"pos": IV(1, hi), "neg": IV(lo, -1)}
+    n_args = 2 if f.arg_count == 2 else 1
+    out = []
+    for a in kinds:
+        for ad, adv in (list(signs.items()) if a == "Rational" else [(None, None)]):
+            A = mk(fb, a, IV(lo, hi), adv)
+            la = a + ("/" + ad if ad else "")
+            if n_args == 1:
+                out.append(("%s(%s)" % (opn, la), [A], ad in (None, "pos")))
+                continue
+            for b in kinds:
+                for bd, bdv in (list(signs.items()) if b == "Rational" else [(None, None)]):
+                    nums = [("pos", IV(1, hi)), ("neg", IV(lo, -1)), ("zero", IV(0))] if opn == "div" else [(None, IV(lo, hi))]
+                    for ns, niv in nums:
+                        Bv = mk(fb, b, niv, bdv)
+                        lb = b + ("/" + bd if bd else "") + (":" + ns if ns else "")
+                        out.append(("%s(%s, %s)" % (opn, la, lb), [A, Bv], ad in (None, "pos") and bd in (None, "pos")))
+    return out
+
+
+def full_range_failures(fb, paths):
+    """(function, op) pairs whose i32/i64 operation can leave its type for *some* i32 operands."""
+    failing = {}
+    lo, hi = interval.I32
+    for opn, path in sorted(paths.items()):
+        f = fb.find(path)
+        for label, args, _ in _cases(fb, f, opn, lo, hi):
+            it = Interp(fb)
+            try:
+                it.run(f, args)
+            except RuntimeError:
+                failing.setdefault((f.name, "analysis"), (label, f.span))
+                continue
+            checked_fns = {o[0] for o in it.obligations if o[2] in ("Overflow", "OverflowNeg")}
+            for (fn, blk, kind, op, ok, span) in it.obligations:
+                if kind == "Bare" and fn in checked_fns:
+                    continue  # checked build: the bare operator sits behind its overflow assert
+                if kind in ("Overflow", "OverflowNeg") or (kind == "Bare" and op in ("Add", "Sub", "Mul", "Neg")):
+                    if not ok:
+                        failing.setdefault((fn, "Neg" if kind == "OverflowNeg" else (op or kind)), (label, span, kind))
+    return failing
+
+
 def range_and_sign(ctx, fb):
     kinds = ["Integer", "Rational"]
     signs = {"pos": IV(1, R15), "neg": IV(-R15, -1)}
@@ -281,7 +327,12 @@ def range_and_sign(ctx, fb):
             label = "%s(%s%s%s)" % (opn, A[0] + ("/" + A[1] if A[1] else ""), ", " if Bc else "",
                                     (Bc[0] + ("/" + Bc[1] if Bc[1] else "") + (":" + Bc[3] if Bc[3] else "")) if Bc else "")
             n_obl = 0
+            checked_fns = {o[0] for o in it.obligations if o[2] in ("Overflow", "OverflowNeg")}
             for (fn, blk, kind, op, ok, span) in it.obligations:
+                if kind == "Bare" and fn in checked_fns:
+                    continue
+                if kind == "OverflowNeg":
+                    op = "Neg"
                 if kind in ("Overflow", "OverflowNeg") or (kind == "Bare" and op in ("Add", "Sub", "Mul", "Neg")):
                     n_obl += 1
                     total += 1
@@ -310,16 +361,21 @@ def range_and_sign(ctx, fb):
         ctx.report("C09-denominator-sign", _short(fn), "given positive operand denominators %s builds a ratio whose denominator "
                    "ranges over %s (case %s): a non-positive denominator makes comparison, floor/ceiling and the printed form wrong"
                    % (_short(fn), d, label), where_of(fb.by_path(fn)))
-    # consumers are sign-naive? (then the invariant is needed); if they branch on a denominator's sign, say so
-    # never-wrong-exact: every site, one key per (function, operator)
-    by_key = {}
-    for (fn, op, kind), span in seen_never.items():
-        by_key.setdefault((fn, op), (kind, span))
-    for (fn, op), (kind, span) in sorted(by_key.items()):
-        ctx.inst("C09-never-wrong-exact", "%s/%s" % (_short(fn), op), {"form": "checked-panics" if kind != "Bare" else "wrapping"})
+    # never-wrong-exact: operations that can leave their type for some i32 operands (full-range interval run)
+    arith = dict(OPS2)
+    arith.update(OPS1)
+    fails = full_range_failures(fb, arith)
+    checked = {(fn, op) for (fn, op, kind) in seen_never}
+    for (fn, op) in sorted(checked):
+        ctx.inst("C09-never-wrong-exact", "%s/%s" % (_short(fn), op), {"overflow_possible_for_some_i32": (fn, op) in fails})
+        ctx.oblige((fn, op) not in fails)
+    for (fn, op), info in sorted(fails.items()):
+        label, span = info[0], info[1]
+        kind = info[2] if len(info) > 2 else "?"
         ctx.report("C09-never-wrong-exact", "%s/%s" % (_short(fn), op),
-                   "exact i32 %s in %s is a bare operator: beyond the i32 range it %s instead of reporting an error or "
-                   "promoting" % (op, _short(fn), "panics (overflow check)" if kind != "Bare" else "wraps to a different exact number"),
+                   "exact i32 %s in %s can exceed the i32 range for some operands (case %s) and is a bare operator: it %s instead "
+                   "of reporting an error or promoting" % (op, _short(fn), label,
+                                                          "wraps to a different exact number" if kind == "Bare" else "panics (overflow check)"),
                    mir.span_loc(span))
 
 
